@@ -100,6 +100,65 @@ pub fn run(args: &[String], out: &mut Sink) {
         // open attempts made per case: 6 (creation race) + 3 + 6 + 1 refused + strace + reopen + poison reopen + 2 around kill
         out.add("evaluations", 21);
 
+        // ---- a storm of creation races on fresh directories: the window between "the directory is empty" and
+        // "the lock file exists" is a few syscalls wide, so one race rarely lands in it.  After every race: at most
+        // one winner; with a winner alive its files are there, a further open is refused, and what it commits
+        // survives drop + reopen (nobody else may have touched the directory).
+        let storm: usize = arg(args, "--storm").and_then(|s| s.parse().ok()).unwrap_or(40);
+        for round in 0..storm {
+            let sdir = format!("{dir}-storm{round}");
+            let _ = std::fs::remove_dir_all(&sdir);
+            if round % 2 == 1 {
+                std::fs::create_dir_all(&sdir).unwrap();
+            }
+            let (winners, mut dbs) = race_open(&sdir, &cfg, 4);
+            out.count("storm_races");
+            if winners > 1 {
+                out.fail(format!("C20 creation race (storm round {round}): {winners} of 4 racing opens succeeded, both handles alive at the same time"));
+            }
+            if let Some(db) = dbs.pop() {
+                drop(dbs);
+                out.count("storm_winners");
+                for f in [".lock", "meta", "ht", "ln", "bbn"] {
+                    if !std::path::Path::new(&format!("{sdir}/{f}")).exists() {
+                        out.fail(format!("C20 after a creation race the winner's file `{f}` is gone while its handle is alive (storm round {round})"));
+                    }
+                }
+                if Db::open(cfg.options(&sdir)).is_ok() {
+                    out.fail(format!("C20 a second handle was handed out while the winner of a creation race is alive (storm round {round})"));
+                }
+                let k = [0x42u8; 32];
+                let s = db.begin_session(SessionParams::default());
+                let committed = s.finish(vec![(k, KeyReadWrite::Write(Some(vec![7u8; 9])))]).and_then(|f| f.commit(&db)).is_ok();
+                drop(db);
+                if committed {
+                    let mut reopened = None;
+                    for _ in 0..300 {
+                        match Db::open(cfg.options(&sdir)) {
+                            Ok(d) => {
+                                reopened = Some(d);
+                                break;
+                            }
+                            Err(_) => std::thread::sleep(std::time::Duration::from_millis(10)),
+                        }
+                    }
+                    match reopened {
+                        Some(d) => {
+                            if d.read(k).ok().flatten() != Some(vec![7u8; 9]) {
+                                out.fail(format!("C20 a value committed by the winner of a creation race is gone after drop + reopen (storm round {round})"));
+                            }
+                        }
+                        None => out.fail(format!("C20 the directory of a creation-race winner cannot be reopened after drop (storm round {round})")),
+                    }
+                } else {
+                    out.fail(format!("C20 winner of a creation race cannot commit (storm round {round})"));
+                }
+            } else {
+                out.count("storm_no_winner");
+            }
+            let _ = std::fs::remove_dir_all(&sdir);
+        }
+
         // ---- creation race on an empty / absent directory ----
         if case % 2 == 1 {
             std::fs::create_dir_all(&dir).unwrap(); // empty but existing
